@@ -286,4 +286,306 @@ theorem allowedTrace_run (h : Hist) (hw : wellLogged h) (ops : List Op) :
     simp only [run, List.zip_cons_cons, allowedTrace, allowed_expected h hw op, Bool.true_and]
     exact ih _ ⟨rfl, hw⟩
 
+/-! ### what a view is, and how it grows -/
+
+theorem view_lt {h : Hist} {w : Nat} {v : View} (hv : view h w = some v) : w < numWatches h := by
+  induction h generalizing v with
+  | nil => simp [view] at hv
+  | cons e h ih =>
+    obtain ⟨op, r⟩ := e
+    have plain : (∀ n, op ≠ Op.watch n) → (∀ w', op ≠ Op.drop w') → w < numWatches ((op, r) :: h) := by
+      intro h1 h2
+      rw [view_cons_plain _ _ (by simpa using h1) (by simpa using h2)] at hv
+      rw [numWatches_cons_other _ _ (by simpa using h1)]
+      cases hv' : view h w with
+      | none => simp [hv'] at hv
+      | some v' => exact ih hv'
+    cases op with
+    | watch n =>
+      rw [view_cons_watch] at hv
+      simp only [numWatches]
+      split at hv
+      · omega
+      · cases hv' : view h w with
+        | none => simp [hv'] at hv
+        | some v' => have := ih hv'; omega
+    | drop w' =>
+      rw [view_cons_drop] at hv
+      rw [numWatches_cons_other _ _ (by simp)]
+      split at hv
+      · cases hv
+      · cases hv' : view h w with
+        | none => simp [hv'] at hv
+        | some v' => exact ih hv'
+    | set n st => exact plain (by simp) (by simp)
+    | clear n => exact plain (by simp) (by simp)
+    | check n => exact plain (by simp) (by simp)
+    | next w' => exact plain (by simp) (by simp)
+
+/-- Logging anything but the drop of stream `w` appends the event to `w`'s view. -/
+theorem view_push {h : Hist} {w : Nat} {v : View} (hv : view h w = some v) (e : Ev)
+    (hd : e.1 ≠ Op.drop w) : view (e :: h) w = some (v.push e) := by
+  obtain ⟨op, r⟩ := e
+  have hlt := view_lt hv
+  cases op with
+  | watch n => rw [view_cons_watch, if_neg (by omega), hv]; rfl
+  | drop w' =>
+    rw [view_cons_drop, if_neg (by intro e; subst e; exact hd rfl), hv]; rfl
+  | set n st => rw [view_cons_plain _ _ (by simp) (by simp), hv]; rfl
+  | clear n => rw [view_cons_plain _ _ (by simp) (by simp), hv]; rfl
+  | check n => rw [view_cons_plain _ _ (by simp) (by simp), hv]; rfl
+  | next w' => rw [view_cons_plain _ _ (by simp) (by simp), hv]; rfl
+
+/-- A view of a non-empty log is either freshly opened by the newest event or the older view
+with the newest event appended. -/
+theorem view_cons_cases {e : Ev} {h : Hist} {w : Nat} {v : View} (hv : view (e :: h) w = some v) :
+    (∃ n s0, e.1 = Op.watch n ∧ numWatches h = w ∧ current h n = some s0 ∧ v = ⟨n, s0, []⟩) ∨
+    (∃ v', view h w = some v' ∧ v = v'.push e ∧ e.1 ≠ Op.drop w) := by
+  obtain ⟨op, r⟩ := e
+  have plain : (∀ n, op ≠ Op.watch n) → (∀ w', op ≠ Op.drop w') →
+      ∃ v', view h w = some v' ∧ v = v'.push (op, r) ∧ (op, r).1 ≠ Op.drop w := by
+    intro h1 h2
+    rw [view_cons_plain _ _ (by simpa using h1) (by simpa using h2)] at hv
+    cases hv' : view h w with
+    | none => simp [hv'] at hv
+    | some v' => simp [hv'] at hv; exact ⟨v', rfl, hv.symm, h2 w⟩
+  cases op with
+  | watch n =>
+    rw [view_cons_watch] at hv
+    split at hv
+    · next hw =>
+      cases hc : current h n with
+      | none => simp [hc] at hv
+      | some s0 => simp [hc] at hv; exact Or.inl ⟨n, s0, rfl, hw, hc, hv.symm⟩
+    · cases hv' : view h w with
+      | none => simp [hv'] at hv
+      | some v' => simp [hv'] at hv; exact Or.inr ⟨v', rfl, hv.symm, by simp⟩
+  | drop w' =>
+    rw [view_cons_drop] at hv
+    split at hv
+    · cases hv
+    · next hne =>
+      cases hv' : view h w with
+      | none => simp [hv'] at hv
+      | some v' =>
+        simp [hv'] at hv
+        exact Or.inr ⟨v', rfl, hv.symm, by intro e; cases e; exact hne rfl⟩
+  | set n st => exact Or.inr (plain (by simp) (by simp))
+  | clear n => exact Or.inr (plain (by simp) (by simp))
+  | check n => exact Or.inr (plain (by simp) (by simp))
+  | next w' => exact Or.inr (plain (by simp) (by simp))
+
+/-- What a view is: the log splits into the stream's events, the Watch call that opened slot
+`w`, and the history before it, in which the name had the status `start`. -/
+theorem view_sound {h : Hist} {w : Nat} {v : View} (hv : view h w = some v) :
+    ∃ h0 r, h = v.evs ++ (Op.watch v.name, r) :: h0 ∧ current h0 v.name = some v.start ∧
+      numWatches h0 = w := by
+  induction h generalizing v with
+  | nil => simp [view] at hv
+  | cons e h ih =>
+    rcases view_cons_cases hv with ⟨n, s0, he, hw, hc, rfl⟩ | ⟨v', hv', rfl, _⟩
+    · obtain ⟨op, r⟩ := e
+      simp only at he; subst he
+      exact ⟨h, r, rfl, hc, hw⟩
+    · obtain ⟨h0, r, hh, hc, hw⟩ := ih hv'
+      exact ⟨h0, r, by simp [View.push, hh], hc, hw⟩
+
+/-- While its name has not been cleared, a stream's latest status is the name's status. -/
+theorem view_latest_current {h : Hist} {w : Nat} {v : View} (hv : view h w = some v)
+    (hopen : closed v.name v.evs = false) :
+    current h v.name = some (latest v.name v.start v.evs) := by
+  induction h generalizing v with
+  | nil => simp [view] at hv
+  | cons e h ih =>
+    rcases view_cons_cases hv with ⟨n, s0, he, hw, hc, rfl⟩ | ⟨v', hv', rfl, _⟩
+    · obtain ⟨op, r⟩ := e
+      simp only at he; subst he
+      rw [current_cons_other _ _ _ (by simp) (by simp)]
+      simpa [latest] using hc
+    · simp only [View.push] at hopen ⊢
+      rw [closed_cons] at hopen
+      simp only [Bool.or_eq_false_iff, decide_eq_false_iff_not] at hopen
+      have ih' := ih hv' hopen.2
+      obtain ⟨op, r⟩ := e
+      by_cases hset : ∃ st, op = Op.set v'.name st
+      · obtain ⟨st, rfl⟩ := hset
+        rw [current_cons_set, latest_cons_set hopen.2]; simp
+      · have hns : ∀ st, (op, r).1 ≠ Op.set v'.name st := fun st e => hset ⟨st, e⟩
+        rw [latest_cons_other _ _ _ hns, ← ih']
+        cases op with
+        | set m st =>
+          rw [current_cons_set]
+          have : ¬ m = v'.name := by intro e; subst e; exact hset ⟨st, rfl⟩
+          simp [this]
+        | clear m =>
+          rw [current_cons_clear]
+          have : ¬ m = v'.name := by intro e; subst e; exact hopen.1 rfl
+          simp [this]
+        | check m => exact current_cons_other _ _ _ (by simp) (by simp)
+        | watch m => exact current_cons_other _ _ _ (by simp) (by simp)
+        | next m => exact current_cons_other _ _ _ (by simp) (by simp)
+        | drop m => exact current_cons_other _ _ _ (by simp) (by simp)
+
+theorem mem_statuses {n : Name} {s0 x : St} {l : Hist} (hx : x ∈ statuses n s0 l) :
+    x = s0 ∨ ∃ r, (Op.set n x, r) ∈ l := by
+  induction l with
+  | nil => simp [statuses] at hx; exact Or.inl hx
+  | cons e l ih =>
+    have lift : (x = s0 ∨ ∃ r, (Op.set n x, r) ∈ l) → (x = s0 ∨ ∃ r, (Op.set n x, r) ∈ e :: l) := by
+      rintro (h | ⟨r, hr⟩)
+      · exact Or.inl h
+      · exact Or.inr ⟨r, List.mem_cons_of_mem _ hr⟩
+    obtain ⟨op, r⟩ := e
+    cases hcl : closed n l with
+    | true => simp [statuses, hcl] at hx; exact lift (ih hx)
+    | false =>
+      cases op with
+      | set m st =>
+        by_cases hm : m = n
+        · subst hm
+          simp [statuses, hcl] at hx
+          rcases hx with rfl | hx
+          · exact Or.inr ⟨r, List.mem_cons_self⟩
+          · exact lift (ih hx)
+        · simp [statuses, hcl, hm] at hx; exact lift (ih hx)
+      | clear m => simp [statuses, hcl] at hx; exact lift (ih hx)
+      | check m => simp [statuses, hcl] at hx; exact lift (ih hx)
+      | watch m => simp [statuses, hcl] at hx; exact lift (ih hx)
+      | next m => simp [statuses, hcl] at hx; exact lift (ih hx)
+      | drop m => simp [statuses, hcl] at hx; exact lift (ih hx)
+
+/-! ### invariants of a view along a run of the reference interpreter -/
+
+/-- A property of stream `w`'s view that every logged step (other than dropping `w`) of a
+class of operations keeps, holds after any run of such operations. -/
+theorem view_log_inv (w : Nat) (P : View → Prop) (okOp : Op → Prop)
+    (hok : ∀ op, okOp op → op ≠ Op.drop w)
+    (hstep : ∀ h v op, view h w = some v → P v → okOp op → P (v.push (op, expected h op)))
+    (h : Hist) (v : View) (hv : view h w = some v) (hP : P v) (q : List Op)
+    (hq : ∀ op ∈ q, okOp op) : ∃ v', view (log h q) w = some v' ∧ P v' := by
+  induction q generalizing h v with
+  | nil => exact ⟨v, hv, hP⟩
+  | cons op q ih =>
+    have hop := hq op List.mem_cons_self
+    exact ih _ _ (view_push hv _ (hok op hop)) (hstep h v op hv hP hop)
+      (fun o ho => hq o (List.mem_cons_of_mem _ ho))
+
+/-- Stream `w` has delivered something and its registration has not been updated since. -/
+def Settled (w : Nat) (v : View) : Prop :=
+  hasReported w v.evs = true ∧ fresh v.name w v.evs = false
+
+theorem expectedNext_settled {w : Nat} {v : View} (hs : Settled w v) :
+    expectedNext v w = if closed v.name v.evs then .ended else .pending := by
+  simp [expectedNext, hs.1, hs.2]
+
+/-- Whatever the reference answer to a poll is, the stream is settled right after it. -/
+theorem settled_after_next (w : Nat) (v : View) :
+    Settled w (v.push (Op.next w, expectedNext v w)) := by
+  unfold expectedNext
+  split
+  · -- a delivery
+    constructor
+    · simp [View.push, hasReported, isReport]
+    · simp [View.push, fresh, isReport]
+  · next hcond =>
+    simp only [Bool.or_eq_true, Bool.not_eq_eq_eq_not, Bool.not_true, not_or, Bool.not_eq_false,
+      Bool.not_eq_true] at hcond
+    have hnr : ∀ r : Resp, (∀ st, r ≠ .value st) → Settled w (v.push (Op.next w, r)) := by
+      intro r hr
+      have hrep : isReport w (Op.next w, r) = false := by
+        cases r <;> simp [isReport]
+        case value st => exact absurd rfl (hr st)
+      constructor
+      · simp only [View.push]; rw [hasReported_cons, hrep]; simpa using hcond.1
+      · simp only [View.push]; rw [fresh_cons_other _ hrep (by simp)]; exact hcond.2
+    split
+    · exact hnr _ (by simp)
+    · exact hnr _ (by simp)
+
+/-- A settled stream stays settled under every logged reference step that is not an update of
+its name while registered (its own polls answer `pending`/`ended`, which are not deliveries). -/
+theorem settled_step {w : Nat} {h : Hist} {v : View} (hv : view h w = some v) (hs : Settled w v)
+    (op : Op) (hop : closed v.name v.evs = true ∨ ∀ st, op ≠ Op.set v.name st) :
+    Settled w (v.push (op, expected h op)) := by
+  have hrep : isReport w (op, expected h op) = false := by
+    cases op with
+    | next w' =>
+      by_cases hw : w' = w
+      · subst hw
+        simp only [expected, hv, expectedNext_settled hs]
+        cases closed v.name v.evs <;> simp [isReport]
+      · exact isReport_next_ne hw _
+    | set n st => exact isReport_of_not_next (by simp)
+    | clear n => exact isReport_of_not_next (by simp)
+    | check n => exact isReport_of_not_next (by simp)
+    | watch n => exact isReport_of_not_next (by simp)
+    | drop n => exact isReport_of_not_next (by simp)
+  constructor
+  · simp only [View.push]; rw [hasReported_cons, hrep]; simpa using hs.1
+  · simp only [View.push]
+    rcases hop with hcl | hns
+    · cases op with
+      | set n st => rw [fresh_cons_set_closed hcl]; exact hs.2
+      | clear n => rw [fresh_cons_other _ hrep (by simp)]; exact hs.2
+      | check n => rw [fresh_cons_other _ hrep (by simp)]; exact hs.2
+      | watch n => rw [fresh_cons_other _ hrep (by simp)]; exact hs.2
+      | next n => rw [fresh_cons_other _ hrep (by simp)]; exact hs.2
+      | drop n => rw [fresh_cons_other _ hrep (by simp)]; exact hs.2
+    · rw [fresh_cons_other _ hrep (by simpa using hns)]; exact hs.2
+
+/-! ### the status of a name along a run -/
+
+theorem current_cons_ne (h : Hist) (e : Ev) (n : Name)
+    (hs : ∀ st, e.1 ≠ Op.set n st) (hc : e.1 ≠ Op.clear n) : current (e :: h) n = current h n := by
+  obtain ⟨op, r⟩ := e
+  cases op with
+  | set m st =>
+    have : ¬ m = n := by intro e; subst e; exact hs st rfl
+    simp [current_cons_set, this]
+  | clear m =>
+    have : ¬ m = n := by intro e; subst e; exact hc rfl
+    simp [current_cons_clear, this]
+  | check m => exact current_cons_other _ _ _ (by simp) (by simp)
+  | watch m => exact current_cons_other _ _ _ (by simp) (by simp)
+  | next m => exact current_cons_other _ _ _ (by simp) (by simp)
+  | drop m => exact current_cons_other _ _ _ (by simp) (by simp)
+
+/-- Operations that neither set nor clear `n` leave its status alone. -/
+theorem current_log_quiet (n : Name) (h : Hist) (q : List Op)
+    (hs : ∀ st, Op.set n st ∉ q) (hc : Op.clear n ∉ q) : current (log h q) n = current h n := by
+  induction q generalizing h with
+  | nil => rfl
+  | cons op q ih =>
+    simp only [log]
+    rw [ih _ (fun st hm => hs st (List.mem_cons_of_mem _ hm)) (fun hm => hc (List.mem_cons_of_mem _ hm))]
+    exact current_cons_ne _ _ _ (fun st e => hs st (by simp at e; simp [e])) (fun e => hc (by simp at e; simp [e]))
+
+/-- A name without a status stays without one as long as nobody sets it. -/
+theorem current_log_none (n : Name) (h : Hist) (q : List Op) (hn : current h n = none)
+    (hs : ∀ st, Op.set n st ∉ q) : current (log h q) n = none := by
+  induction q generalizing h with
+  | nil => exact hn
+  | cons op q ih =>
+    simp only [log]
+    apply ih _ _ (fun st hm => hs st (List.mem_cons_of_mem _ hm))
+    by_cases hc : op = Op.clear n
+    · subst hc; simp [current_cons_clear]
+    · rw [current_cons_ne _ _ _ (fun st e => hs st (by simp at e; simp [e])) (by simpa using hc)]
+      exact hn
+
+theorem closed_iff_mem (n : Name) (l : Hist) : closed n l = true ↔ Op.clear n ∈ l.map (·.1) := by
+  simp [closed]
+
+/-- Along a run that does not drop stream `w`, its view collects exactly the run's events. -/
+theorem view_log_evs {h : Hist} {w : Nat} {v : View} (hv : view h w = some v) (q : List Op)
+    (hq : ∀ op ∈ q, op ≠ Op.drop w) :
+    ∃ v', view (log h q) w = some v' ∧ v'.name = v.name ∧ v'.start = v.start ∧
+      v'.evs.map (·.1) = q.reverse ++ v.evs.map (·.1) := by
+  induction q generalizing h v with
+  | nil => exact ⟨v, hv, rfl, rfl, by simp⟩
+  | cons op q ih =>
+    obtain ⟨v', h1, h2, h3, h4⟩ := ih (view_push hv (op, expected h op) (hq op List.mem_cons_self))
+      (fun o ho => hq o (List.mem_cons_of_mem _ ho))
+    exact ⟨v', h1, h2, h3, by simp [h4, View.push]⟩
+
 end Health
